@@ -327,14 +327,28 @@ def rule_clamp(ctx):
 
     n = 0
     for d in defs:
-        if d[0] != 'assign':
-            # e.g. cmp::min(end.unwrap_or(max), max)
-            e = cb.call_expr(d[2])
-            if re.search(r'Ord>::min$|cmp::min$', e[1]) and any(is_end(a) for a in e[2]) and any(is_maxknown(a) and not is_end(a) for a in e[2]):
+        e = peel(cb.call_expr(d[2]) if d[0] != 'assign' else cb.rvalue_expr(d[3]), calls=False)
+        if e[0] == 'call' and any(is_end(a) for a in e[2]) and is_maxknown(e):
+            # a combinator over end and max_known, e.g. cmp::min(end.unwrap_or(max), max)
+            if re.search(r'Ord>?::min$|cmp::min$', e[1]) and any(is_end(a) for a in e[2]) and any(is_maxknown(a) and not is_end(a) for a in e[2]):
                 ctx.ok('clamp', 'min(end,max_known)', (cb, d[1]), show(e))
-                n += 1
+                ctx.ok('clamp', 'none->max_known', (cb, d[1]), 'the other operand of min is max_known')
+                n += 2
                 continue
-            raise Unrecognised('clamp', 'max_height defined by unrecognised call %s' % show(e))
+            if re.search(r'Option::<.*>::map_or$', e[1]) and len(e[2]) == 3 and is_end(e[2][0]) and is_maxknown(e[2][1]) and not is_end(e[2][1]):
+                # end.map_or(max_known, |h| min(h, max_known))
+                payload = mir.mk_try(peel(e[2][0], calls=False))
+                r = util.closure_apply(cb.prog, e[2][2], [payload])
+                r = peel(r, calls=False) if r else r
+                okc = bool(r) and r[0] == 'call' and re.search(r'Ord>?::min$|cmp::min$', r[1]) is not None and any(is_end(a) and not is_maxknown(a) for a in r[2]) and \
+                    any(is_maxknown(a) and not is_end(a) for a in r[2])
+                ctx.check('clamp', 'map_or(max_known, min(end,max_known))', okc, (cb, d[1]), show(e)[:160])
+                ctx.ok('clamp', 'none->max_known', (cb, d[1]), 'default of map_or is max_known')
+                n += 2
+                continue
+            raise Unrecognised('clamp', 'max_height defined by unrecognised combinator %s' % show(e)[:200])
+        if d[0] != 'assign':
+            raise Unrecognised('clamp', 'max_height defined by unrecognised call %s' % show(e)[:200])
         bb = d[1]
         v = cb.rvalue_expr(d[3])
         rels = util.facts_to_rels(cb.facts_at(bb))
@@ -389,7 +403,7 @@ def rule_trim(ctx):
             if v[1]:
                 true_paths.append(rels)
         else:
-            true_paths.append(rels + [util.norm_rel(v, True)])
+            true_paths.append(rels + util.expand_rel(util.norm_rel(v, True)))
 
     def resolve(e):
         """map closure-relative expressions to the creator's: upvar fields and the key parameter"""
